@@ -731,6 +731,7 @@ func runFrame(fr *frame) {
 				}
 			}
 			if ex := fr.i.ex; ex != nil {
+				ex.curFn = fr.fn
 				ex.steps++
 				if ex.steps > ex.MaxSteps {
 					panic(uncaughtPanic{"unwind", fr.fn.String(), fmt.Sprintf("step budget %d exceeded (possible non-termination)", ex.MaxSteps)})
